@@ -140,9 +140,11 @@ class LivenessAnalysis(Generic[VId], BackwardAnalysis[LivenessDomain[VId]]):
         self._include_unreachable = include_unreachable
 
     def eq(self, live1: LivenessDomain[VId], live2: LivenessDomain[VId]) -> bool:
-        # Only check that both contain the same variables. We don't care about the BB
-        # in which the use occurs, we just need any one, to report to the user.
-        return live1.keys() == live2.keys()
+        # Also compare the BBs recorded as evidence of a use: they decide which use is
+        # reported to the user, so the fixpoint may not depend on the visiting order
+        return live1.keys() == live2.keys() and all(
+            bb.idx == live2[x].idx for x, bb in live1.items()
+        )
 
     def initial(self) -> LivenessDomain[VId]:
         return self._initial
@@ -151,15 +153,29 @@ class LivenessAnalysis(Generic[VId], BackwardAnalysis[LivenessDomain[VId]]):
         return self._include_unreachable
 
     def join(self, *ts: LivenessDomain[VId]) -> LivenessDomain[VId]:
+        # If several successors provide evidence for a use, keep the use that comes
+        # first in the source
         res: LivenessDomain[VId] = {}
         for t in ts:
-            res |= t
-        return res
+            for x, bb in t.items():
+                if x not in res or self._use_pos(x, bb) < self._use_pos(x, res[x]):
+                    res[x] = bb
+        # Also fix the order of the variables, it decides which one is reported first
+        return dict(
+            sorted(res.items(), key=lambda e: (self._use_pos(e[0], e[1]), str(e[0])))
+        )
+
+    def _use_pos(self, x: VId, bb: BB) -> tuple[int, int, int]:
+        use = self.stats[bb].used.get(x)
+        return getattr(use, "lineno", 0), getattr(use, "col_offset", 0), bb.idx
 
     def apply_bb(self, live_after: LivenessDomain[VId], bb: BB) -> LivenessDomain[VId]:
         stats = self.stats[bb]
+        # A use in this block is the evidence; otherwise pass on the one from below
         return {x: bb for x in stats.used} | {
-            x: b for x, b in live_after.items() if x not in stats.assigned
+            x: b
+            for x, b in live_after.items()
+            if x not in stats.assigned and x not in stats.used
         }
 
 
